@@ -82,7 +82,24 @@ fn prompt<F: FnOnce() + Send + 'static>(what: &str, f: F) -> Result<Duration, Fa
     }
 }
 
+/// The scenario runs on a helper thread: a call that never returns (for example a join of a ticker that
+/// missed its wake-up, issued from the scenario itself or from the destructor of the last handle) is
+/// reported as `not_prompt` instead of hanging the check; the stuck thread is left behind.
 fn run_real(c: &RealCase) -> CaseResult {
+    let (tx, rx) = mpsc::channel();
+    let c2 = c.clone();
+    std::thread::spawn(move || {
+        let r = catch(|| run_scenario(&c2));
+        let _ = tx.send(r);
+    });
+    match rx.recv_timeout(PROMPT + PROMPT) {
+        Ok(Ok(r)) => r,
+        Ok(Err(p)) => Err(Fail::new("panic", format!("scenario {} panicked: {p}", c.scenario % 7))),
+        Err(_) => Err(Fail::new("not_prompt", format!("scenario {} did not come to an end within {:?} (a call or a destructor blocks although the tick interval should not matter)", c.scenario % 7, PROMPT + PROMPT))),
+    }
+}
+
+fn run_scenario(c: &RealCase) -> CaseResult {
     let spy = SlowSpy { flushes: Arc::new(AtomicUsize::new(0)), slow_ms: c.slow_flush_ms as u64 % 40 };
     let pb = ProgressBar::with_draw_target(Some(10), ProgressDrawTarget::term_like(Box::new(spy.clone())));
     pb.set_style(ProgressStyle::with_template("{spinner} {pos}").unwrap());
